@@ -115,6 +115,15 @@ class Tables:
             return [(ast.Constant(value=i), v) for i, v in enumerate(e.elts)]
         return None
 
+    def is_dict_table(self, e: ast.AST) -> bool:
+        """A module- or class-level *dict* literal (a dispatch table), as opposed to a list of names used as a set."""
+        if isinstance(e, ast.Name) and not self._is_local(e.id):
+            return isinstance(self.f.module.assigns.get(e.id), ast.Dict)
+        if isinstance(e, ast.Attribute) and isinstance(e.value, ast.Name) and self.f.cls is not None and self.f.params and e.value.id == self.f.params[0]:
+            got = self.model.lookup_assign(self.f.cls, e.attr)
+            return got is not None and isinstance(got[1], ast.Dict)
+        return False
+
     def _local_table(self, name: str) -> Optional[ast.AST]:
         """The dict literal a local is bound to, when that is its only binding and the local is only read through
         `t[k]`, `t.get(k..)`, `k in t`."""
@@ -202,7 +211,8 @@ class _Expr(ast.NodeTransformer):
             indexed = any(isinstance(x, ast.Subscript) and ast.dump(_load(x.value)) == tdump for x in ast.walk(self.t.f.__dict__.get("raw_node", self.t.f.node))) or \
                 any(isinstance(x, ast.Call) and isinstance(x.func, ast.Attribute) and x.func.attr == "get" and ast.dump(_load(x.func.value)) == tdump
                     for x in ast.walk(self.t.f.__dict__.get("raw_node", self.t.f.node)))
-            if isinstance(rows, list) and isinstance(n.comparators[0], (ast.Name, ast.Attribute)) and indexed:
+            is_dict = self.t.is_dict_table(n.comparators[0])
+            if isinstance(rows, list) and isinstance(n.comparators[0], (ast.Name, ast.Attribute)) and (indexed or is_dict):
                 self.changed = True
                 tests = [_eq(n.left, k) for k, _ in rows]
                 e: ast.AST = tests[0] if len(tests) == 1 else ast.BoolOp(op=ast.Or(), values=tests)
@@ -255,6 +265,12 @@ class _Expr(ast.NodeTransformer):
     def visit_Call(self, n: ast.Call):
         self.generic_visit(n)
         f = n.func
+        if isinstance(f, ast.Name) and f.id == "int" and len(n.args) == 2 and not n.keywords and isinstance(n.args[1], ast.Constant) and n.args[1].value == 10 \
+                and isinstance(n.args[0], (ast.Subscript, ast.Attribute, ast.Name)):
+            # int(text, 10) -> int(text): the argument is a token of the parse result (a str); base 10 is the default
+            if any(isinstance(x, ast.Subscript) for x in ast.walk(n.args[0])):
+                self.changed = True
+                return ast.copy_location(ast.Call(func=f, args=[n.args[0]], keywords=[]), n)
         if isinstance(f, ast.Name) and f.id in ("list", "tuple") and len(n.args) == 1 and not n.keywords and isinstance(n.args[0], (ast.Tuple, ast.List)) \
                 and all(_row_ok(v) for v in n.args[0].elts):
             self.changed = True
@@ -283,6 +299,23 @@ class _Expr(ast.NodeTransformer):
                 if d is not None:
                     self.changed = True
                     return ast.copy_location(d, n)
+        if isinstance(f, ast.Attribute) and f.attr == "format" and isinstance(f.value, ast.Constant) and isinstance(f.value.value, str) \
+                and n.args and not n.keywords and not any(isinstance(a, ast.Starred) for a in n.args):
+            import re as _re
+            parts = _re.split(r"(\{[^{}]*\})", f.value.value)
+            fields = [p_ for p_ in parts if p_.startswith("{") and p_.endswith("}")]
+            if len(fields) == len(n.args) and all(_re.fullmatch(r"\{(:[^{}!]*)?\}", p_) for p_ in fields) and "{{" not in f.value.value and "}}" not in f.value.value:
+                vals: list = []
+                it = iter(n.args)
+                for p_ in parts:
+                    if p_ in fields and p_.startswith("{"):
+                        spec = p_[2:-1] if p_.startswith("{:") else ""
+                        vals.append(ast.FormattedValue(value=next(it), conversion=-1,
+                                                       format_spec=ast.JoinedStr(values=[ast.Constant(value=spec)]) if spec else None))
+                    elif p_:
+                        vals.append(ast.Constant(value=p_))
+                self.changed = True
+                return ast.copy_location(ast.JoinedStr(values=vals), n)
         if isinstance(f, ast.Attribute) and f.attr == "get" and 1 <= len(n.args) <= 2 and not n.keywords and _simple_key(n.args[0]):
             rows = self.t.rows(f.value)
             if isinstance(rows, list):
@@ -435,6 +468,14 @@ class _Stmt:
                         continue
             # recurse into compound statements
             s = self.stmt(s)
+            # if c: X = A else: X = B   ->  X = A if c else B      (one plain local on both sides, nothing else in the arms)
+            if isinstance(s, ast.If) and len(s.body) == 1 and len(s.orelse) == 1 and isinstance(s.body[0], ast.Assign) \
+                    and isinstance(s.orelse[0], ast.Assign) and len(s.body[0].targets) == 1 and len(s.orelse[0].targets) == 1 \
+                    and isinstance(s.body[0].targets[0], ast.Name) and isinstance(s.orelse[0].targets[0], ast.Name) \
+                    and s.body[0].targets[0].id == s.orelse[0].targets[0].id and getattr(s.body[0], "_from_inline_return", True):
+                new = ast.Assign(targets=[s.body[0].targets[0]], value=ast.IfExp(test=s.test, body=s.body[0].value, orelse=s.orelse[0].value), lineno=s.lineno)
+                s = ast.fix_missing_locations(ast.copy_location(new, s))
+                self.changed = True
             out.append(s)
             i += 1
         return out
